@@ -30,8 +30,9 @@ def refactor_table(prefixes=('R',)):
     for b, m in rows(list(prefixes)):
         what = ' '.join((m.get('what') or '').split())
         what = what.split(' - ', 1)[-1] if ' - ' in what[:40] else what
-        n += 1; ok += len(m.get('silent_for', [])) == NCHK
-        lines.append(f"| `{b}` | {what[:200].rstrip()}… | {len(m.get('silent_for', []))}/{NCHK} | {', '.join(m.get('false_alarms', [])) or '—'} | {', '.join(m.get('undecided_by', [])) or '—'} |")
+        nev = len(m.get('check_results', {})) or NCHK
+        n += 1; ok += len(m.get('silent_for', [])) == nev
+        lines.append(f"| `{b}` | {what[:200].rstrip()}… | {len(m.get('silent_for', []))}/{nev} | {', '.join(m.get('false_alarms', [])) or '—'} | {', '.join(m.get('undecided_by', [])) or '—'} |")
     return '\n'.join(lines), n, ok
 
 def put(name, text):
@@ -48,7 +49,7 @@ if '<!-- GEN:round3 -->' in s:
     t4, n4, own4, any4 = breaking_table(['W3-'])
     put('round3', t4 + f"\n\nRound 3: {any4}/{n4} detected by at least one check, {own4}/{n4} by the check of the property they were written against.")
 t3, n3, ok3 = refactor_table(['R1-', 'R2-', 'R3-', 'R4-', 'R5-', 'R6-', 'R7-'])
-put('refactors', t3 + f"\n\n{ok3}/{n3} refactorings silent on all 20 checks (re-evaluated with the checks as they stand at the end of the 2026-09-29 session).")
+put('refactors', t3 + f"\n\n{ok3}/{n3} refactorings silent on every check evaluated on them (18 checks where the meta predates the C01 and C12 checks, 20 where it was re-evaluated in the 2026-09-29 session).")
 for name, pref in (('round4', ['W4-']), ('round5', ['W5-'])):
     if f'<!-- GEN:{name} -->' in s:
         t, n, own, anyd = breaking_table(pref)
@@ -56,6 +57,6 @@ for name, pref in (('round4', ['W4-']), ('round5', ['W5-'])):
 if '<!-- GEN:refactors2 -->' in s:
     t5, n5, ok5 = refactor_table(['R8-', 'R9-', 'R10-', 'R11-', 'R12-'])
     nofa = sum(1 for b, m in rows(['R8-', 'R9-', 'R10-', 'R11-', 'R12-']) if not m.get('false_alarms'))
-    put('refactors2', t5 + f"\n\n{ok5}/{n5} silent on all 20 checks; {nofa}/{n5} without a false alarm (the others: exit 1 on behaviour-preserving code, listed above).")
+    put('refactors2', t5 + f"\n\n{ok5}/{n5} silent on all checks evaluated; {nofa}/{n5} without a false alarm (the others: exit 1 on behaviour-preserving code, listed above).")
 open(D, 'w').write(s)
 print('round1', n1, own1, any1, '| round2', n2, own2, any2, '| refactors', n3, ok3)
